@@ -230,7 +230,7 @@ func (g *Gen) expr(d int) Expr {
 		case 1:
 			return Lit{Kind: 2 + r.Intn(2)}
 		case 2, 3, 4:
-			return Lit{Kind: 1, N: r.Intn(9) - 2}
+			return Lit{Kind: 1, N: r.Intn(7)} // non-negative: a negative literal is a unary expression in JS
 		case 5:
 			if r.Intn(8) == 0 {
 				return Var{X: 4 + r.Intn(2)} // possibly unresolvable
